@@ -37,13 +37,19 @@ def run(tier, replay):
     p = os.path.join(d, "rec.ndjson")
     r = wv.run_harness(exe, [hp], p, timeout=1500)
     evs = wv.read_ndjson(p)
+    if any(e["e"] == "nofixture" for e in evs):
+        res.violation("an encryption alone in a fresh process failed, hung or crashed while the fixtures were made (T = 1, 2 or 4; see C01 / C04)", {"ops": [0]})
+        return res.finish()
     fresh = sorted([e for e in evs if e["e"] == "fresh"], key=lambda e: e["op"])
     if r.returncode != 0 or len(fresh) != 34:
         raise wv.Infra("history driver failed rc=%s, %d fresh results: %s" % (r.returncode, len(fresh), r.stderr[-800:]))
     ftab = [{"ret": e["ret"], "out": e["out"], "how": e["how"]} for e in fresh]
     events = []
+    nskip = sum(1 for e in evs if e["e"] == "hist" and e.get("how") == "skipped")
+    if nskip:
+        res.note("%d histories were not run after six histories had not run to completion (reported below)" % nskip)
     for e in evs:
-        if e["e"] == "hist":
+        if e["e"] == "hist" and e.get("how") != "skipped":
             e["fresh"] = ftab; e["id"] = len(events); events.append(e)
     bad, st = wv.validate_trace("HistoryTrace", events, name=PID + "/tlc")
     names = {e["op"]: e["name"] for e in fresh}
